@@ -1443,7 +1443,7 @@ def _kwargs_dicts(fdef, log=None):
             return _kwargs_dicts(fdef, log)
 
 
-def _eliminate_aliases(fdef, log=None, member_ok=None):
+def _eliminate_aliases(fdef, log=None, member_ok=None, modroots=()):
     """N27: `x = y` between two plain locals, where this is the only binding of x, every binding of y comes before it and x is not read
     before it: y is x under another name (a hoisted temporary, the result variable of an inlined helper).  y is renamed to x and the
     copy disappears; nothing is evaluated differently."""
@@ -1522,8 +1522,15 @@ def _eliminate_aliases(fdef, log=None, member_ok=None):
         for idx, st in enumerate(stmts_order):
             member = isinstance(st, ast.Assign) and isinstance(st.value, ast.Attribute) and isinstance(st.value.value, ast.Name) and st.value.value.id == "self" \
                 and member_ok is not None and member_ok(st.value.attr)
-            if isinstance(st, ast.Assign) and len(st.targets) == 1 and isinstance(st.targets[0], ast.Name) and (_stable_path(st.value) or member) \
-                    and any(st is s_ for s_ in fdef.body):
+            modpath = False
+            if isinstance(st, ast.Assign) and isinstance(st.value, ast.Attribute):
+                # `f = pkg.mod.Class.method`: a dotted path rooted at an imported module names the same object wherever it is written
+                r_ = st.value
+                while isinstance(r_, ast.Attribute):
+                    r_ = r_.value
+                modpath = isinstance(r_, ast.Name) and r_.id in modroots
+            if isinstance(st, ast.Assign) and len(st.targets) == 1 and isinstance(st.targets[0], ast.Name) and (_stable_path(st.value) or member or modpath) \
+                    and (any(st is s_ for s_ in fdef.body) or (modpath and any(isinstance(s_, ast.Try) and any(st is b_ for b_ in s_.body) for s_ in fdef.body))):
                 # N36: `x = self.CMD.UI_ATT` at the top level of the function, the only binding of x, x not read before it: x is a short name for
                 # the class-level constant (constant paths are what N2 already substitutes for loop variables); the path takes its place.
                 # The same for `x = self._member` when the class binds that member in __init__ only (and this is not __init__): x and the member
@@ -1535,6 +1542,9 @@ def _eliminate_aliases(fdef, log=None, member_ok=None):
                 if x not in params and x not in banned and stores.get(x) == [idx] and not any(i <= idx for i in loads.get(x, [])) \
                         and root.id != x and (root.id in params or root.id not in stores):
                     fdef.body[:] = [s_ for s_ in fdef.body if s_ is not st] or [ast.copy_location(ast.Pass(), st)]
+                    for s_ in fdef.body:
+                        if isinstance(s_, ast.Try) and any(st is b_ for b_ in s_.body):
+                            s_.body[:] = [b_ for b_ in s_.body if b_ is not st] or [ast.copy_location(ast.Pass(), st)]
                     _ConstSub({x: st.value}).visit(fdef)
                     if log is not None:
                         log.append((ast.unparse(st.value), x, getattr(st, "lineno", 0)))
@@ -2025,6 +2035,16 @@ class Normalizer:
             if nm not in used:
                 self.dead |= {q for q in qs if q in inlined}
 
+    def _import_roots(self, modname):
+        cache = self.__dict__.setdefault("_rootcache", {})
+        if modname not in cache:
+            out = set()
+            for st in self.modules[modname].tree.body:
+                if isinstance(st, ast.Import):
+                    out |= {(a.asname or a.name.split(".")[0]) for a in st.names}
+            cache[modname] = out
+        return cache[modname]
+
     def _member_init_only(self, modname, cname, attr):
         cdef = self.classes.get((modname, cname))
         if cdef is None:
@@ -2054,6 +2074,88 @@ class Normalizer:
                     return False
         return True
 
+    def _table_conditions(self, fdef, modname):
+        """N49: `x = TABLE.get(K)` with TABLE a module-level dict display of constants (no None among the values) and K a plain name / attribute or
+        `<name>.lower()`-style call, x bound once and used only as a condition:
+            x is None -> K not in [keys]      x is not None -> K in [keys]      x -> K in [keys with a true value]      not x -> K not in [those]
+        (the assignment stays; K is evaluated again in each test, which nobody notices for such K)."""
+        tables = {}
+        for st in self.modules[modname].tree.body:
+            if isinstance(st, ast.Assign) and len(st.targets) == 1 and isinstance(st.targets[0], ast.Name) and isinstance(st.value, ast.Dict) and st.value.keys \
+                    and all(isinstance(k, ast.Constant) and isinstance(k.value, (str, int)) for k in st.value.keys) \
+                    and all(isinstance(v, ast.Constant) and v.value is not None for v in st.value.values):
+                tables[st.targets[0].id] = st.value
+        if not tables:
+            return
+        for t in list(tables):
+            if sum(1 for st in self.modules[modname].tree.body for n in ast.walk(st) if isinstance(n, ast.Name) and n.id == t and isinstance(n.ctx, ast.Store)) != 1:
+                del tables[t]
+
+        def pure_key(k):
+            if isinstance(k, ast.Call) and isinstance(k.func, ast.Attribute) and k.func.attr in ("lower", "upper", "strip", "casefold") and not k.args and not k.keywords:
+                return pure_key(k.func.value)
+            return _side_effect_free(k) and not isinstance(k, ast.Constant)
+        cands = {}
+        for n in ast.walk(fdef):
+            if isinstance(n, ast.Assign) and len(n.targets) == 1 and isinstance(n.targets[0], ast.Name) and isinstance(n.value, ast.Call) \
+                    and isinstance(n.value.func, ast.Attribute) and n.value.func.attr == "get" and isinstance(n.value.func.value, ast.Name) \
+                    and n.value.func.value.id in tables and len(n.value.args) == 1 and not n.value.keywords and pure_key(n.value.args[0]):
+                cands.setdefault(n.targets[0].id, []).append(n)
+        for x, defs in cands.items():
+            stores = [n for n in ast.walk(fdef) if isinstance(n, ast.Name) and n.id == x and isinstance(n.ctx, (ast.Store, ast.Del))]
+            if len(defs) != 1 or len(stores) != 1:
+                continue
+            d = defs[0]
+            K, T = d.value.args[0], tables[d.value.func.value.id]
+            knames = {n.id for n in ast.walk(K) if isinstance(n, ast.Name)}
+            # K must mean the same at the tests: its names are not re-bound inside the function after ... (kept simple: bound at most once, or parameters)
+            if any(sum(1 for n in ast.walk(fdef) if isinstance(n, ast.Name) and n.id == kn and isinstance(n.ctx, ast.Store)) > 1 for kn in knames):
+                continue
+            loads = [n for n in ast.walk(fdef) if isinstance(n, ast.Name) and n.id == x and isinstance(n.ctx, ast.Load)]
+            allk = ast.List(elts=[copy.deepcopy(k) for k in T.keys], ctx=ast.Load())
+            truek = ast.List(elts=[copy.deepcopy(k) for k, v in zip(T.keys, T.values) if v.value], ctx=ast.Load())
+            repl = {}
+            ok = True
+
+            def cond_sites(node):
+                sites = []
+                for n in ast.walk(node):
+                    tests = []
+                    if isinstance(n, (ast.If, ast.While, ast.IfExp)):
+                        tests.append(n.test)
+                    for t in tests:
+                        stack_ = [t]
+                        while stack_:
+                            e = stack_.pop()
+                            if isinstance(e, ast.BoolOp):
+                                stack_ += e.values
+                            else:
+                                sites.append(e)
+                return sites
+            used = set()
+            for e in cond_sites(fdef):
+                neg, core = False, e
+                while isinstance(core, ast.UnaryOp) and isinstance(core.op, ast.Not):
+                    neg, core = not neg, core.operand
+                if isinstance(core, ast.Name) and core.id == x:
+                    repl[id(e)] = ast.Compare(left=copy.deepcopy(K), ops=[ast.NotIn() if neg else ast.In()], comparators=[copy.deepcopy(truek)])
+                    used.add(id(core))
+                elif isinstance(core, ast.Compare) and len(core.ops) == 1 and isinstance(core.left, ast.Name) and core.left.id == x \
+                        and isinstance(core.ops[0], (ast.Is, ast.IsNot)) and isinstance(core.comparators[0], ast.Constant) and core.comparators[0].value is None:
+                    isnone = isinstance(core.ops[0], ast.Is) != neg
+                    repl[id(e)] = ast.Compare(left=copy.deepcopy(K), ops=[ast.NotIn() if isnone else ast.In()], comparators=[copy.deepcopy(allk)])
+                    used.add(id(core.left))
+            if not repl or any(id(n) not in used for n in loads):
+                continue
+
+            class _R(ast.NodeTransformer):
+                def visit(s_, node):
+                    if id(node) in repl:
+                        return ast.fix_missing_locations(ast.copy_location(repl[id(node)], node))
+                    return super().visit(node)
+            _R().visit(fdef)
+            self.lowered.append((f"{modname}:{fdef.name}", getattr(d, "lineno", 0), f"table condition {x}"))
+
     def _hexfuncs(self, modname):
         """module-level names standing for binascii.hexlify / b2a_hex (and `binascii` itself when the module is imported)"""
         cache = self.__dict__.setdefault("_hexcache", {})
@@ -2072,6 +2174,7 @@ class Normalizer:
         if getattr(fdef, "_normalised", False):
             return
         fdef._normalised = True
+        self._table_conditions(fdef, modname)
         _CmpCanon(self._hexfuncs(modname)).visit(fdef)
         _propagate_bools(fdef)
         fdef.body = _sink_returns(fdef.body)
@@ -2092,7 +2195,8 @@ class Normalizer:
         for d_, ns_, ln_ in sd_:
             self.lowered.append((stack[0], ln_, f"dict slots {d_}->{ns_}"))
         al_ = []
-        _eliminate_aliases(fdef, al_, member_ok=(lambda a_: self._member_init_only(modname, cname, a_)) if cname is not None and fdef.name != "__init__" else None)
+        _eliminate_aliases(fdef, al_, member_ok=(lambda a_: self._member_init_only(modname, cname, a_)) if cname is not None and fdef.name != "__init__" else None,
+                           modroots=self._import_roots(modname))
         for y_, x_, ln_ in al_:
             self.lowered.append((stack[0], ln_, f"alias {y_}->{x_}"))
 
